@@ -2,7 +2,8 @@
 
 The model is a plain JSON-able dict (``spec``) so that a case can be written into a replay file:
 
-    subject          str (single spaces only, no leading/trailing blank)
+    subject          str (no leading/trailing white space; the interior may hold significant white space: runs of
+                     blanks, a tab, U+00A0, U+3000, U+2003, U+2009 - see SUBJECT_WS)
     from             [name, addr]
     to/cc/bcc/reply_to   list of entries: ["a", name, addr] | ["g", group name, [[name, addr], ...]]
     date             [Y, M, D, h, m, s, utc offset in minutes]         date_style: see DATE_STYLES
@@ -82,6 +83,30 @@ FROMLIKE_LINES = (
 )
 
 
+# White space that is *content* of a decoded Subject / display name (not folding): between its first and last
+# visible character a header value may hold runs of blanks or white-space characters other than U+0020.  A reader
+# returns them as they are; "tidying" them (str.split/join, \\s+ -> ' ') changes the subject.
+SUBJECT_WS = {
+    "double-blank": "  ",          # two blanks after a full stop, aligned "Col A:  12" subjects
+    "triple-blank": "   ",
+    "tab": "\t",                   # raw HTAB is WSP in an unstructured header; =09 / base64 inside an encoded word
+    "blank-tab": " \t",
+    "nbsp": "\u00a0",              # "Nr.\u00a04711" - routine in German / French subjects
+    "nbsp-blank": "\u00a0 ",
+    "ideographic": "\u3000",       # routine in Japanese / Chinese subjects
+    "em-space": "\u2003",
+    "thin-space": "\u2009",
+}
+
+
+def encodable(text: str, charset: str) -> bool:
+    try:
+        text.encode(charset)
+        return True
+    except (UnicodeEncodeError, LookupError):
+        return False
+
+
 def is_ascii(s: str) -> bool:
     try:
         s.encode("ascii")
@@ -159,12 +184,14 @@ def encoded_words(text: str, charset: str, mode: str, label: str | None = None) 
 def encode_unstructured(text: str, charset: str, mode: str, style: str, label: str | None = None) -> list[str]:
     """-> list of atoms to be joined by one blank (or a fold).  ``style``: whole | mixed."""
     if is_ascii(text) and style != "whole":
-        return text.split(" ")
+        return text.split(" ")             # a run of k blanks gives k-1 empty atoms: joined by one blank each, the run is back
     if style == "whole":
         return encoded_words(text, charset, mode, label)
     atoms, run = [], []
     for w in text.split(" "):
-        if is_ascii(w):
+        if w == "" and run:
+            run.append(w)                  # a blank of a run of blanks after a non-ASCII word travels inside the encoded word
+        elif is_ascii(w):                  # (white space *between* two encoded-words would be dropped by every reader)
             if run:
                 atoms += encoded_words(" ".join(run), charset, mode, label)
                 run = []
@@ -192,7 +219,11 @@ def fold(name: str, atoms: list[str], eol: str, width: int = 76, cont: str = " "
     out = []
     for prev, a in zip(atoms, atoms[1:]):
         boundary = _is_ew(prev) != _is_ew(a)
-        if (boundary and ew_fold == "always") or (len(line) + 1 + len(a) > width and not (boundary and ew_fold == "never")):
+        if a == "" or prev == "" or a[0] in " \t" or prev[-1] in " \t":
+            # inside / next to a run of white space: never a fold (no white-space-only line, RFC 5322 3.2.2, and no
+            # doubt about which of the characters after the line break belongs to the fold)
+            line += " " + a
+        elif (boundary and ew_fold == "always") or (len(line) + 1 + len(a) > width and not (boundary and ew_fold == "never")):
             out.append(line)
             line = cont + a
         else:
@@ -370,7 +401,7 @@ def hand_header_block(spec: dict, eol: str) -> str:
     smode, scs, sstyle = h.get("subject_enc", ["B", "utf-8", "mixed"])
     label = h.get("charset_label", {}).get(scs)
     lines = {}
-    lines["Subject"] = fold(nm("Subject"), encode_unstructured(spec["subject"], scs, smode, sstyle, label), eol, width, cont, colon,
+    lines["Subject"] = fold(nm("Subject"), encode_unstructured(spec["subject"], scs, smode, sstyle, label), eol, h.get("subject_width", width), cont, colon,
                             ew_fold="always" if h.get("fold_at_ew") else "never")
     lines["From"] = fold(nm("From"), render_mailbox(spec["from"][0], spec["from"][1], h), eol, width, cont, colon)
     for hn, k in (("To", "to"), ("Cc", "cc"), ("Bcc", "bcc"), ("Reply-To", "reply_to")):
@@ -473,6 +504,10 @@ def _name(rng, tok, kind: str, charset: str) -> str:
         return f"{rng.choice(SAMPLES[charset])} {t}"
     if kind == "nonascii-comma":
         return f"{rng.choice(SAMPLES[charset]).replace(' ', ', ', 1)}, {t}"
+    if kind == "ws-quoted":            # significant white space inside a quoted-string (the comma / dot forces the quotes)
+        return rng.choice([f"Doe,  John {t}", f"{t} Inc.   Sales", f"Dr. {t},\tMD"])
+    if kind == "nonascii-ws":          # ... and inside an encoded word (falls back to utf-8 when the charset lacks the character)
+        return rng.choice(SAMPLES[charset]) + rng.choice(["\u00a0", "\u3000", "  ", "\u2009"]) + t
     raise ValueError(kind)
 
 
@@ -543,6 +578,17 @@ def random_spec(rng, tok, fx: dict, *, allow=None, depth: int = 0) -> dict:
         words.append(tok("s"))
         feats.append("subj:folded")
     subject = " ".join(words)
+    if allow.get("subject_ws", True) and rng.random() < 0.3:
+        # significant interior white space: one to three of the single blanks between words become a run of blanks
+        # or another white-space character (chosen among those the header's charset can carry)
+        wcs = "utf-8" if hcs == "us-ascii" or mode == "stdlib" else hcs
+        kinds = [k for k, v in SUBJECT_WS.items() if encodable(v, wcs)]
+        seps = [" "] * (len(words) - 1)
+        for i in rng.sample(range(len(seps)), min(len(seps), rng.choice([1, 1, 2, 3]))):
+            k = rng.choice(kinds)
+            seps[i] = SUBJECT_WS[k]
+            feats.append("subj:ws:" + k)
+        subject = words[0] + "".join(sep + w for sep, w in zip(seps, words[1:]))
     if mode == "hand":
         smode = rng.choice(["B", "Q", "b", "q"])
         sstyle = rng.choice(["whole", "mixed"])
@@ -573,7 +619,7 @@ def random_spec(rng, tok, fx: dict, *, allow=None, depth: int = 0) -> dict:
         feats.append(f"subj:stdlib:{'ascii' if is_ascii(subject) else 'utf-8'}")
 
     # ---- addresses
-    name_kinds = ["none", "ascii", "ascii", "comma", "escapes", "nonascii", "nonascii-comma"]
+    name_kinds = ["none", "ascii", "ascii", "comma", "escapes", "nonascii", "nonascii-comma", "ws-quoted", "nonascii-ws"]
     name_kinds = [k for k in name_kinds if allow.get("name:" + k, True)]
     if hcs == "us-ascii" or mode == "stdlib":
         # CPython 3.12's header *generator* mangles separators when it refolds non-ASCII address lists (a writer
@@ -777,6 +823,19 @@ def nested_eml_attachment(rng, tok, fx: dict, pol: str) -> dict:
             "inner": inner, "data": b""}
 
 
+def benign_wire_form(spec: dict) -> None:
+    """Control form for the wire features: the same header block written by the hand writer with the Subject and
+    the Message-ID on one line each."""
+    h = spec["hdr"]
+    if h["mode"] != "hand":
+        h["mode"] = "hand"
+        h.setdefault("subject_enc", ["B", "utf-8", "whole" if not is_ascii(spec["subject"]) else "mixed"])
+        h.setdefault("name_mode", "B")
+        h.setdefault("name_charset", "utf-8")
+    h["subject_width"] = 998
+    h["mid_folded"] = False
+
+
 def force_second_60(spec: dict) -> None:
     """Risky form: a leap-second time of day (hh:mm:60), valid per RFC 5322 section 3.3."""
     spec["hdr"]["mode"] = "hand"
@@ -799,10 +858,21 @@ def force_fold_at_encoded_word(rng, tok, spec: dict) -> None:
     spec["features"] = sorted(set(f for f in spec["features"] if not f.startswith("subj:")) | {f"subj:mixed:{cs}", "risky:fold-at-encoded-word"})
 
 
-def decode_unstructured(raw_value: str) -> str:
-    """Own RFC 2047 reader for an unstructured header value (used to validate the *stdlib writer*): unfold,
-    decode encoded-words, drop white space between adjacent encoded-words, keep every other blank."""
-    v = re.sub(r"\r?\n(?=[ \t])", "", raw_value).rstrip("\r\n")
+def raw_header_value(raw: bytes, name: str):
+    """The still-folded value of the first header ``name`` of a rendered message (None when absent)."""
+    head = re.split(rb"\r?\n\r?\n", raw, maxsplit=1)[0].decode("latin-1")
+    m = re.search(r"(?im)^" + re.escape(name) + r":((?:.*)(?:\r?\n[ \t].*)*)", head)
+    return m.group(1).rstrip("\r") if m else None
+
+
+def decode_unstructured(raw_value: str, fold_ws: str = "literal") -> str:
+    """Own RFC 2047 reader for an unstructured header value (validates the writers and gives the oracle the exact
+    wire reading): unfold, decode encoded-words, drop white space between adjacent encoded-words, keep every
+    other white-space character as it is.  ``fold_ws``: "literal" - RFC 5322 2.2.3, only the line break of a fold
+    is removed (a tab continuation stays a tab); "blank" - the white-space character that follows the line break
+    is read as one blank (the conventional reading of tab-folded headers)."""
+    v = raw_value.rstrip("\r\n")
+    v = re.sub(r"\r?\n[ \t]", " ", v) if fold_ws == "blank" else re.sub(r"\r?\n(?=[ \t])", "", v)
     out = []
     for tokn in re.split(r"([ \t]+)", v):
         if not tokn:
@@ -825,6 +895,57 @@ def decode_unstructured(raw_value: str) -> str:
     return "".join(x for _, x in out)
 
 
+def subject_readings(raw: bytes) -> list[str]:
+    """The decoded Subject of a rendered message as the wire defines it, outer white space stripped:
+    [literal unfolding, fold white space read as one blank] (one element when both agree)."""
+    v = raw_header_value(raw, "Subject")
+    if v is None:
+        return [""]
+    a, b = decode_unstructured(v, "literal").strip(), decode_unstructured(v, "blank").strip()
+    return [a] if a == b else [a, b]
+
+
+def light(spec: dict) -> dict:
+    """The message reduced to its header block (what the header validations and wire readings need)."""
+    return dict(spec, atts=[], wrap_mixed=False, plain=None, html=None)
+
+
+def header_probe(spec: dict) -> bytes:
+    """The rendered Subject and Message-ID header lines of ``spec`` exactly as render_message() writes them (every
+    header is folded on its own, so the other headers need not be built)."""
+    pol = _pol(spec)
+    if spec["hdr"]["mode"] != "stdlib":
+        return hand_header_block(dict(spec, to=[], cc=[], bcc=[], reply_to=[]), pol.linesep).encode("ascii") + pol.linesep.encode("ascii")
+    m = EmailMessage(policy=pol)
+    m["Subject"] = spec["subject"]
+    m["Message-ID"] = spec["message_id"]
+    return _flatten(m, pol)
+
+
+def wire_features(spec: dict) -> list[str]:
+    """Header features that only the rendered bytes show (the stdlib writer folds where it likes):
+    plain-folded-subject            the Subject is folded and holds no encoded-word
+    message-id-on-continuation-line the Message-ID value starts on a continuation line ("Message-ID:" CRLF SP "<id>")
+    fold-at-encoded-word            the Subject is folded between an encoded-word and ordinary text
+    fold-in-white-space-run         the Subject is folded inside or next to a run of white space (more than the one
+                                    continuation character after the line break, or white space before it)"""
+    raw = header_probe(spec)
+    out = []
+    v = (raw_header_value(raw, "Subject") or "").rstrip("\r\n")
+    if re.search(r"\r?\n[ \t]", v) and "=?" not in v:
+        out.append("plain-folded-subject")
+    if re.search(r"[ \t]\r?\n[ \t]|\r?\n[ \t]{2}", v):
+        out.append("fold-in-white-space-run")
+    for m in re.finditer(r"(\S*)[ \t]*\r?\n[ \t]+(?=(\S*))", v):
+        if m.group(1) and m.group(2) and _is_ew(m.group(1)) != _is_ew(m.group(2)):
+            out.append("fold-at-encoded-word")
+            break
+    v = raw_header_value(raw, "Message-ID") or ""
+    if re.match(r"[ \t]*\r?\n", v):
+        out.append("message-id-on-continuation-line")
+    return out
+
+
 def header_roundtrip_problems(spec: dict) -> list[str]:
     """Writer validation for stdlib-rendered header blocks (they carry ASCII-only address headers): the Subject
     is read back with this module's own RFC 2047 reader, address headers / date / id with the modern stdlib
@@ -833,13 +954,12 @@ def header_roundtrip_problems(spec: dict) -> list[str]:
     refolding is known to mangle some values) is kept out of the workload instead of being blamed on a reader."""
     import email
 
-    light = dict(spec, atts=[], wrap_mixed=False)
-    raw = render_message(light)
+    raw = render_message(light(spec))
     m = email.message_from_bytes(raw, policy=_policy.default)
     c = email.message_from_bytes(raw)
     bad = []
     try:
-        if re.sub(r"\s+", " ", decode_unstructured(str(c["Subject"]))).strip() != spec["subject"]:
+        if spec["subject"] not in subject_readings(raw):
             bad.append("Subject")
     except Exception:  # noqa: BLE001
         bad.append("Subject")
@@ -910,6 +1030,23 @@ def self_test() -> None:
                     got = str(email.header.make_header(email.header.decode_header(hv)))
                     assert got == t, (cs, mode, style, got, t)
                     assert decode_unstructured(fold("Subject", atoms, "\r\n", 40, ew_fold="never")[9:]).strip() == t, (cs, mode, style)
+    # significant interior white space: the hand writer against this module's reader, the modern stdlib parser
+    # (email.policy.default, literal unfolding) and email.header.decode_header
+    for cs in CHARSETS:
+        ecs = "utf-8" if cs == "us-ascii" else cs
+        for kind, ws in SUBJECT_WS.items():
+            if not encodable(ws, ecs):
+                continue
+            t = f"qs00001z{ws}{SAMPLES[cs][0]} qs00002z{ws}x{ws}{SAMPLES[cs][-1]}"
+            for mode in "BQ":
+                for style in ("whole", "mixed"):
+                    for cont in " \t":
+                        atoms = encode_unstructured(t, ecs, mode, style)
+                        raw = fold("Subject", atoms, "\r\n", 40, cont, ew_fold="never").encode("ascii") + b"\r\nbody\r\n"
+                        rd = subject_readings(raw)
+                        assert t in rd, (cs, kind, mode, style, cont, t, rd)
+                        assert str(email.message_from_bytes(raw, policy=_policy.default)["Subject"]) in rd, (cs, kind, mode, style, cont)
+                        assert str(email.header.make_header(email.header.decode_header(" ".join(atoms)))) == t, (cs, kind, mode, style)
     for style in DATE_STYLES:
         d7 = [2024, 3, 5, 7, 8, 0 if style == "noseconds" else 9,
               -300 if style == "zone-named" else 0 if style in ("zone-gmt", "zone-ut", "minus0000") else 345]
